@@ -3,7 +3,7 @@
 import json, os, glob, re
 ROOT = os.path.dirname(os.path.dirname(os.path.abspath(__file__)))
 rows = []
-for d in sorted(glob.glob(os.path.join(ROOT, "seeded", "C*-m*"))):
+for d in sorted(glob.glob(os.path.join(ROOT, "seeded", "C*-*m[0-9]"))):
     m = json.load(open(os.path.join(d, "meta.json")))
     name = os.path.basename(d)
     caught = []
